@@ -185,7 +185,7 @@ impl Sender {
 }
 
 impl<T> Executor<T> {
-//@ slice src/sources/futures.rs / impl EventSource for Executor<T> / fn process_events :: closure 1 props=C10,C02 name=Executor::process_events::drain_closure
+//@ slice src/sources/futures.rs / impl EventSource for Executor<T> / fn process_events :: closure 1 props=C10,C02,C12 name=Executor::process_events::drain_closure
 //@ rw R19 * <<state.sender.notified.store(false, Ordering::SeqCst)>> => <<atomic_store(&state.sender.notified, false, Ordering::SeqCst)>>
 //@ rw R10 * <<state.active_tasks.borrow_mut()>> => <<&mut *tasks_cell>>
 //@ rw R14 1 <<for _ in 0..1024>> => <<for _i in lit: 0..1024>>
@@ -242,7 +242,7 @@ impl<T> Executor<T> {
         clear_readiness
 //@ endslice
 
-//@ slice src/sources/futures.rs / impl EventSource for Executor<T> / fn process_events :: stmts <<if !clear_readiness {>> .. <<if !clear_readiness {>> props=C10,C02 name=Executor::process_events::post_drain
+//@ slice src/sources/futures.rs / impl EventSource for Executor<T> / fn process_events :: stmts <<if !clear_readiness {>> .. <<if !clear_readiness {>> props=C10,C02,C12 name=Executor::process_events::post_drain
 //@ sig
     /// S1 slice: the last statement of Executor::process_events. Free variables `clear_readiness`, `action` become parameters.
     fn exec_post_drain(&mut self, clear_readiness: bool, action: PostAction) -> (r: Result<PostAction, ExecutorError>)
